@@ -651,7 +651,7 @@ Section Compile.
 End Compile.
 
 (* ---------- Template::compile2 ---------- *)
-Definition peg_fuel (src : str) : nat := 200 + 24 * length src.
+Definition peg_fuel (src : str) : nat := 200 + 48 * length src.
 
 Definition init_cstate : cstate :=
   {| c_ts := []; c_hs := []; c_ds := []; c_omit := false; c_trim := false; c_end := None |}.
